@@ -1757,7 +1757,13 @@ impl<Front: SocketHandler + std::fmt::Debug, L: ListenerHandler + L7ListenerHand
                 .map_or_else(Vec::new, |ids| ids.to_owned());
             for stream_id in linked_ids {
                 // This stream is linked to the backend that timedout
-                if self.context.streams[stream_id].back.is_terminated()
+                // (an interim 100 / 103 still queued is marked Terminated by the
+                // H1 parser but is not a response: the request still needs its 504)
+                let interim = matches!(
+                    self.context.streams[stream_id].back.detached.status_line,
+                    kawa::StatusLine::Response { code, .. } if (100..200).contains(&code) && code != 101
+                );
+                if (self.context.streams[stream_id].back.is_terminated() && !interim)
                     || self.context.streams[stream_id].back.is_error()
                 {
                     trace!(
